@@ -6,10 +6,12 @@
      orchestrate/obase/tagbuilder + util/stringtemplate             -> parse_template, build_tag
      buffer/hybridbuffer/queuedirs.go makeBufferQueueDir,
                                   listBufferQueueIDs, sanitizeDirName -> make_queue_dir, list_buffer_ids, sanitize
-     base/logprocesscounterset.go SelectMetricKeySet                -> metric_select
+     base/logprocesscounterset.go SelectMetricKeySet, MetricLabelValues -> metric_select, metric_label_values
+                                  (strings.ToValidUTF8(v, "") = Model/Utf8.v to_valid_utf8)
    md5 is a Section variable of the queue-directory part; the correspondence run instantiates it
    with Model/Md5.v.  No proofs in this file. *)
 From SV Require Import Model.Common Model.Md5.
+From SV Require Model.Utf8.
 Open Scope N_scope.
 
 Definition obind {A B} (o : outcome A) (f : A -> outcome B) : outcome B :=
@@ -234,7 +236,16 @@ Definition build_tag (parts : list tpart) (keys : list bytes) : outcome bytes :=
 (* ------------------------------------------------------------------------------------------ *)
 (* the by-key-set orchestrator                                                                *)
 
-Record pipeline := { p_keys : list bytes; p_id : bytes; p_tag : bytes }.
+(* base.MetricLabelValues (fix b1856f7): where field values become Prometheus label values they go through
+   strings.ToValidUTF8(value, ""): every byte that is not part of a well-formed UTF-8 sequence is removed, valid
+   strings are unchanged.  The routing keys themselves (merged key, id, tag, queue name) are NOT changed. *)
+Definition metric_label_values (values : list bytes) : list bytes := map Utf8.to_valid_utf8 values.
+
+(* p_keys: the key values the pipeline was created for (the [keys] argument of newPipeline);
+   p_labels: the values of the key_* labels fixed in the pipeline's metric creator
+   (AddOrGetPrefix("process_", "orchestrator" :: key_*, "byKeySet" :: MetricLabelValues(keys)); the constant
+   first label is left out) *)
+Record pipeline := { p_keys : list bytes; p_id : bytes; p_tag : bytes; p_labels : list bytes }.
 
 (* workerMap: merged key -> index into the list of pipelines (creation order) *)
 Record gstate := { g_map : amap; g_pipes : list pipeline }.
@@ -246,7 +257,7 @@ Definition pipeline_id (keys : list bytes) : bytes := join comma keys.
 (* byKeySetOrchestrator.newPipeline *)
 Definition new_pipeline (parts : list tpart) (keys : list bytes) : outcome pipeline :=
   tag <- build_tag parts keys ;;
-  Ok {| p_keys := keys; p_id := pipeline_id keys; p_tag := tag |}.
+  Ok {| p_keys := keys; p_id := pipeline_id keys; p_tag := tag; p_labels := metric_label_values keys |}.
 
 (* GlobalCachedMap.getOrCreate *)
 Definition global_get_or_create (parts : list tpart) (g : gstate) (keys : list bytes) (mk : bytes)
@@ -321,10 +332,11 @@ Fixpoint run_ops (parts : list tpart) (g : gstate) (lms : list amap) (ops : list
 (* ------------------------------------------------------------------------------------------ *)
 (* metric key sets: LogProcessCounterSet.SelectMetricKeySet                                    *)
 
-(* keySetPairs: merged metric key -> index of the counter pair; the label values of each pair *)
-Record mstate := { m_map : amap; m_sets : list (list bytes) }.
+(* keySetPairs: merged metric key -> index of the counter pair; per pair the key values it was created for
+   (permKeys) and the label values of its counters (labelValues := MetricLabelValues(permKeys)) *)
+Record mstate := { m_map : amap; m_sets : list (list bytes); m_labels : list (list bytes) }.
 
-Definition m_init : mstate := {| m_map := []; m_sets := [] |}.
+Definition m_init : mstate := {| m_map := []; m_sets := []; m_labels := [] |}.
 
 Definition metric_select (m : mstate) (keys : list bytes) : mstate * nat :=
   let mk := merged_key keys in
@@ -332,7 +344,8 @@ Definition metric_select (m : mstate) (keys : list bytes) : mstate * nat :=
   | Some i => (m, i)
   | None =>
     let i := length (m_sets m) in
-    ({| m_map := (mk, i) :: m_map m; m_sets := m_sets m ++ [keys] |}, i)
+    ({| m_map := (mk, i) :: m_map m; m_sets := m_sets m ++ [keys];
+        m_labels := m_labels m ++ [metric_label_values keys] |}, i)
   end.
 
 Fixpoint metric_run (m : mstate) (recs : list (list bytes)) : mstate * list nat :=
@@ -517,7 +530,7 @@ Definition hex_tuple (t : list bytes) : bytes := join 46 (map hex t).
 Definition dec_nat (n : nat) : bytes := dec_of_N (N.of_nat n).
 
 Definition pipe_out (with_dir : bool) (p : pipeline) : bytes :=
-  hex (p_id p) ++ 47 :: hex (p_tag p) ++ 47 :: hex_tuple (p_keys p)
+  hex (p_id p) ++ 47 :: hex (p_tag p) ++ 47 :: hex_tuple (p_labels p)
   ++ (if with_dir then 47 :: match queue_dir_name md5_hex (p_id p) with None => dash | Some nm => hex nm end else []).
 
 Definition pipes_out (with_dir : bool) (ps : list pipeline) : bytes := join 59 (map (pipe_out with_dir) ps).
@@ -634,7 +647,20 @@ Definition run_list (c : case) : bytes :=
 Fixpoint count_eq (i : nat) (l : list nat) : nat :=
   match l with [] => O | x :: r => (if Nat.eqb x i then 1 else 0) + count_eq i r end.
 
-(* kind 4: sargs = n key names, the records' metric key values; zargs = n *)
+(* counter sets whose label values coincide write into the same exported series (AddOrGetPrefix / WithLabelValues
+   hand out the same Prometheus counters): rows with the same label tuple - adjacent after sorting - add up *)
+Fixpoint merge_rows (rows : list (bytes * nat)) : list (bytes * nat) :=
+  match rows with
+  | [] => []
+  | (k, c) :: r =>
+    match merge_rows r with
+    | (k', c') :: r' => if bytes_eqb k k' then (k, (c + c')%nat) :: r' else (k, c) :: (k', c') :: r'
+    | [] => [(k, c)]
+    end
+  end.
+
+(* kind 4: sargs = n key names, the records' metric key values; zargs = n.
+   Output: the counter set (map entry) selected for each record; the gathered series: label values = passed = labelled *)
 Definition run_metric (c : case) : bytes :=
   match c_zargs c with
   | [zn] =>
@@ -646,8 +672,8 @@ Definition run_metric (c : case) : bytes :=
     | Some tuples =>
       let (m, is) := metric_run m_init tuples in
       let rows := map (fun ik => (hex_tuple (snd ik), count_eq (fst ik) is))
-                      (combine (seq 0 (length (m_sets m))) (m_sets m)) in
-      let rows := sort_by fst rows in
+                      (combine (seq 0 (length (m_labels m))) (m_labels m)) in
+      let rows := merge_rows (sort_by fst rows) in
       str_ok ++ colon :: join comma (map dec_nat is) ++ 35 ::
       join 59 (map (fun r => fst r ++ eq_ :: dec_nat (snd r) ++ eq_ :: dec_nat (snd r)) rows)
     end
@@ -690,7 +716,7 @@ Definition run_e2e (c : case) : bytes :=
         | Ok (g, _, is) =>
           let deliver_live := fun i =>
             match nth_error (g_pipes g) i with
-            | Some p => hex (p_tag p) ++ 47 :: hex_tuple (p_keys p)
+            | Some p => hex (p_tag p) ++ 47 :: hex_tuple (p_labels p)
             | None => dash
             end in
           if (zm =? 0)%Z then str_ok ++ colon :: join 59 (map deliver_live is) else
@@ -709,7 +735,7 @@ Definition run_e2e (c : case) : bytes :=
                   | Some id =>
                     if existsb (bytes_eqb id) listed then
                       match find_attached name attached with
-                      | Some p2 => hex (p_tag p) ++ 47 :: hex_tuple (p_keys p2)
+                      | Some p2 => hex (p_tag p) ++ 47 :: hex_tuple (p_labels p2)
                       | None => dash
                       end
                     else dash
